@@ -146,10 +146,17 @@ func getFields(n map[string]ast.Node) (map[string]fields.Field, error) {
 
 			switch x := n.(type) {
 			case *ast.Field:
-				if len(x.Names) == 1 && !isPrivate(x) {
-					f, skip := getField(x.Names[0].Name, x, nil)
-					if !skip {
-						parent.Children = append(parent.Children, f)
+				if len(x.Names) >= 1 {
+					// a declaration can introduce several fields
+					// that share a type and tag ('Lat, Lon float64')
+					for _, name := range x.Names {
+						if strings.Contains(letters, string(name.Name[0])) {
+							continue
+						}
+						f, skip := getField(name.Name, x, nil)
+						if !skip {
+							parent.Children = append(parent.Children, f)
+						}
 					}
 				} else if len(x.Names) == 0 && !isPrivate(x) {
 					f, skip := getField(fmt.Sprintf("%s", x.Type), x, nil)
